@@ -26,6 +26,9 @@ except FileNotFoundError:
     matrix = {}
 
 
+BASE = subprocess.check_output(["git", "-C", "/repo", "rev-parse", "HEAD"], text=True).strip()      # one commit for the whole pass
+
+
 def rules_of(out, p):
     return sorted(set(l.split(": ", 1)[1].split(" [")[0] for l in out.splitlines()
                       if ": " in l and " [" in l and not l.startswith(("VIOLATION", "KNOWN", p + ":"))))
@@ -56,7 +59,7 @@ def one(sid):
     else:
         t = tempfile.mkdtemp(prefix="psv-seed-", dir="/tmp")
         try:
-            subprocess.check_call("git -C /repo archive HEAD include src test | tar -x -C %s" % t, shell=True)
+            subprocess.check_call("git -C /repo archive %s include src test | tar -x -C %s" % (BASE, t), shell=True)
             r = subprocess.run(["patch", "-p1", "-s", "-d", t, "-i", patch], capture_output=True, text=True)
             if r.returncode != 0:
                 return sid, dict(property=meta["property"], applies=False, note=(r.stdout + r.stderr).strip()[:200])
